@@ -3,7 +3,7 @@ import re
 from hypothesis import strategies as st
 from vlib import core, abbr_model as M, abbr_gen as G
 from vlib.core import guard
-from emmet import expand
+from emmet import expand, markup_abbreviation
 from emmet.config import Config
 
 PROP_ID = 'C01'
@@ -13,7 +13,8 @@ RULE = ("case = (structured script, config). (a) every operator skeleton over `>
         "elements (.c #i [a]) under every kind of parent, groups nested ≤ 3, repeat counts ≤ 5, `^^^`, self-closing marks, text. Configurations: "
         "selfClosingStyle html/xhtml/xml × syntax html/xml × format off/on. Oracle: abbreviation text and reference denotation are both derived "
         "from the script (the operators' stated meaning, unrolled repeaters, implicit names by parent); format off → exact string equality with the "
-        "reference rendering; format on → equality after deleting all white space (generated names/values/texts contain none). "
+        "reference rendering; format on → equality after deleting all white space (generated names/values/texts contain none); the tree "
+        "returned by emmet.markup_abbreviation() must have the same shape and names. "
         "Non-trivial: ≥ 2 operators and at least one of climb/group/repeat; distinct by script (exhaustive layer: by construction).")
 ASSUME = ["`>` directly after a group, after a text-only item and after a self-closed element is never generated (undocumented behaviour)",
           "names that are keys of the resolved snippet table are not generated (`select` is neutralised with a user snippet) so aliases cannot change the tree",
@@ -73,6 +74,34 @@ def check_tree(case, rec, distinct=False):
         rec.cls('has-nameless-element')
     if st_['group'] and st_['repeat']:
         rec.cls('group+repeat')
+    # secondary observation point: the tree returned by emmet.markup_abbreviation() has the same shape and names
+    secondary = (not distinct) or (st_['group'] and st_['climb'])
+    try:
+        if not secondary:
+            raise StopIteration()
+        rec.evals()
+        with guard():
+            ast = markup_abbreviation(text, Config({'syntax': cfg.get('syntax', 'html'), 'snippets': dict(G.NEUTRALISE), 'options': dict(cfg.get('options') or {})}))
+        def shape(nodes):
+            return [((n.name if (n.name or n.attributes) else '#text'), shape(n.children)) for n in nodes]
+        got_shape = shape(ast.children)
+        exp_shape = M.resolved_names(nodes, o)
+        # text-only items hand their children over to the parent level in the converted tree; the reference keeps them nested
+        def flat(t):
+            out = []
+            for name, kids in t:
+                if name == '#text':
+                    out.append(('#text', []))
+                    out += flat(kids)
+                else:
+                    out.append((name, flat(kids)))
+            return out
+        if flat(got_shape) != flat(exp_shape):
+            rec.fail('tree-mismatch:parse-tree', 'abbr %r\n expected shape %r\n got shape      %r' % (text, flat(exp_shape), flat(got_shape)))
+    except StopIteration:
+        pass
+    except Exception as e:
+        rec.fail(core.exc_bucket(e, 'exc:parse-tree'), '%r: %s: %s' % (text, type(e).__name__, e))
     for fmt in (False, True):
         c = {'syntax': cfg.get('syntax', 'html'), 'snippets': dict(G.NEUTRALISE), 'options': dict(cfg.get('options') or {})}
         c['options']['output.format'] = fmt
